@@ -3,6 +3,7 @@
 // Layout: meta dl, dc, quat (use_quaternion): dim = dl + dc*(quat?4:1), dim_covariance = dl + dc*(quat?3:1).
 // Optional operand lw_first (N1 x 1): one earlier resample call on the SAME object with a set of N1 particles
 // (a different N), so that the 1/N range of the offset must follow the set of each call.
+// Kind "hist": see run_history (one object, interleaved neff / resample, weights changed in place).
 // Operands: lw (N x 1 log-weights), state (dim x N), mean (dim x N), cov (dim_cov x dim_cov*N),
 // int seed, int draws (number of resample calls on the same object; the last one
 // is reported), kind "prior": ratio (1 x 1), meta init=count|grid (grid: nx, ny).
@@ -48,30 +49,93 @@ static void fill(ParticleSet& s, const vf::Case& c) {
     s.state() = c.mat("state"); s.mean() = c.mat("mean"); s.covariance() = c.mat("cov"); s.weight() = c.mat("lw");
 }
 
-static void report(const ParticleSet& res, const VectorXi& parents) {
-    vf::out_int("components", res.components);
-    vf::out_int("dim_linear", res.dim_linear);
-    vf::out_int("dim_circular", res.dim_circular);
-    vf::out_int("use_quaternion", res.use_quaternion ? 1 : 0);
-    vf::out_int("dim", res.dim);
-    vf::out_int("dim_covariance", res.dim_covariance);
-    vf::out_int("state_rows", res.state().rows());
-    vf::out_int("mean_rows", res.mean().rows());
-    vf::out_int("cov_rows", res.covariance().rows());
-    vf::out_int("state_cols", res.state().cols());
-    vf::out_int("mean_cols", res.mean().cols());
-    vf::out_int("cov_cols", res.covariance().cols());
-    vf::out_int("weight_rows", res.weight().rows());
-    vf::out_mat("state", res.state());
-    vf::out_mat("mean", res.mean());
-    vf::out_mat("cov", res.covariance());
-    vf::out_mat("weights", res.weight());
-    vf::out_mat("parents", parents.cast<double>());
+static void report(const ParticleSet& res, const VectorXi& parents, const std::string& sfx = "") {
+    vf::out_int("components" + sfx, res.components);
+    vf::out_int("dim_linear" + sfx, res.dim_linear);
+    vf::out_int("dim_circular" + sfx, res.dim_circular);
+    vf::out_int("use_quaternion" + sfx, res.use_quaternion ? 1 : 0);
+    vf::out_int("dim" + sfx, res.dim);
+    vf::out_int("dim_covariance" + sfx, res.dim_covariance);
+    vf::out_int("state_rows" + sfx, res.state().rows());
+    vf::out_int("mean_rows" + sfx, res.mean().rows());
+    vf::out_int("cov_rows" + sfx, res.covariance().rows());
+    vf::out_int("state_cols" + sfx, res.state().cols());
+    vf::out_int("mean_cols" + sfx, res.mean().cols());
+    vf::out_int("cov_cols" + sfx, res.covariance().cols());
+    vf::out_int("weight_rows" + sfx, res.weight().rows());
+    vf::out_mat("state" + sfx, res.state());
+    vf::out_mat("mean" + sfx, res.mean());
+    vf::out_mat("cov" + sfx, res.covariance());
+    vf::out_mat("weights" + sfx, res.weight());
+    vf::out_mat("parents" + sfx, parents.cast<double>());
+}
+
+static bool same_set(const ParticleSet& a, const ParticleSet& b) {
+    return vf::bit_equal(a.state(), b.state()) && vf::bit_equal(a.mean(), b.mean()) && vf::bit_equal(a.covariance(), b.covariance())
+           && vf::bit_equal(a.weight(), b.weight()) && a.components == b.components;
+}
+
+// kind "hist": ONE resampler object driven through a history of neff() / resample() calls on two particle-set objects
+// P (operands state, mean, cov; N particles) and Q (stateQ, meanQ, covQ; N2 particles) that live for the whole history.
+// word ops: one token per step, nP | rP | nQ | rQ (n = neff(target.weight()), r = resample(target, fresh result, parents));
+// before step k the log-weights lw_s<k> are written IN PLACE into the target's weight storage (same address: reported
+// as same_addr_s<k>).  Every step is reported with the suffix _s<k>; a resample step is never preceded by a hidden neff.
+// meta variant=plain|prior (prior: operand ratio, counting initialiser).
+static void run_history(const vf::Case& c) {
+    const long N = c.mat("state").cols(), N2 = c.mat("stateQ").cols();
+    const long dl = c.mi("dl"), dc = c.mi("dc");
+    const bool quat = c.mi("quat") != 0;
+    const unsigned seed = (unsigned)c.integer("seed");
+    const bool prior = c.m("variant") == "prior";
+    const double ratio = prior ? c.mat("ratio")(0, 0) : 0.0;
+    ParticleSet P(N, dl, dc, quat), Q(N2, dl, dc, quat);
+    P.state() = c.mat("state"); P.mean() = c.mat("mean"); P.covariance() = c.mat("cov");
+    Q.state() = c.mat("stateQ"); Q.mean() = c.mat("meanQ"); Q.covariance() = c.mat("covQ");
+    P.weight().setConstant(-std::log((double)N)); Q.weight().setConstant(-std::log((double)N2));
+    const double* addrP = P.weight().data();
+    const double* addrQ = Q.weight().data();
+    std::unique_ptr<Resampling> r;
+    if (prior) r.reset(new ResamplingWithPrior(std::unique_ptr<ParticleSetInitialization>(new CountingInit()), ratio, seed));
+    else r.reset(new Resampling(seed));
+    std::mt19937_64 mirror(seed);
+    const std::vector<std::string>& ops = c.word("ops");
+    vf::out_begin(c.id);
+    vf::out_int("steps", (long)ops.size());
+    for (std::size_t k = 0; k < ops.size(); k++) {
+        const std::string sfx = "_s" + std::to_string(k);
+        const bool onP = ops[k].size() > 1 && ops[k][1] == 'P';
+        ParticleSet& T = onP ? P : Q;
+        const long n = onP ? N : N2;
+        T.weight() = c.mat("lw" + sfx);                       // in place: the storage is not reallocated
+        vf::out_int("same_addr" + sfx, T.weight().data() == (onP ? addrP : addrQ) ? 1 : 0);
+        if (ops[k][0] == 'n') {
+            double neff = NAN;
+            { vf::Entry e("Resampling::neff"); neff = r->neff(T.weight()); }
+            vf::out_num("neff" + sfx, neff);
+            continue;
+        }
+        ParticleSet before(T);
+        ParticleSet res(n, dl, dc, quat);
+        res.state().setConstant(9.5); res.mean().setConstant(-9.5); res.covariance().setConstant(4.25); res.weight().setConstant(0.125);
+        VectorXi parents = VectorXi::Constant(n, -7);
+        const long np = prior ? (long)std::floor(n * ratio) : 0;
+        std::uniform_real_distribution<double> d(0.0, 1.0 / (n - np));
+        const double u1 = d(mirror);
+        g_init_calls = 0; g_init_size = -1;
+        { vf::Entry e(prior ? "ResamplingWithPrior::resample" : "Resampling::resample"); r->resample(T, res, parents); }
+        report(res, parents, sfx);
+        vf::out_num("u1" + sfx, u1);
+        vf::out_int("init_calls" + sfx, g_init_calls);
+        vf::out_int("init_size" + sfx, g_init_size);
+        vf::out_int("cor_unchanged" + sfx, same_set(T, before) ? 1 : 0);
+    }
+    vf::out_end();
 }
 
 int main() {
     vf::Case c;
     while (vf::read_case(std::cin, c)) {
+        if (c.kind == "hist") { run_history(c); continue; }
         const long N = c.mat("lw").rows();
         const long dl = c.mi("dl"), dc = c.mi("dc");
         const unsigned seed = (unsigned)c.integer("seed");
